@@ -8,7 +8,8 @@ from .. import core, obs
 RULE = ("accepted vectors x random sequences (length 5-40) of accessor calls on ONE instance: scores, severities, "
         "clean_vector (both prefix options), rh_vector, sub-vectors, as_json with the four option sets, ==, hash, and "
         "in-place mutation of every dict that as_json() returned; every result compared with the first-call result of "
-        "a fresh object and with the Lean model's prediction; distinct = distinct (vector, sequence)")
+        "a fresh object and with the Lean model's prediction; distinct = distinct (vector, sequence)"
+        " + every history also touches a RELATED partner object (same string / respelled / other minor version / one metric changed); expected values from the Lean model")
 ASSUMPTIONS = ["aliasing and caching are runtime facts the functional model cannot exhibit; they are sampled, not proved"]
 EXPLANATION = ("Lean: in the model every accessor is a function of an immutable Obj, so any call sequence returns the single-call "
                "results (theorem accessors_pure); assurance for the Python object comes from model-based differential execution "
